@@ -33,7 +33,7 @@ package prelude
 //@   args recv ctx moduleName amt
 //@   modifies W.bank, W.supply
 //@   ensures err != nil ==> W.bank == old(W.bank) && W.supply == old(W.supply)
-//@   ensures err == nil ==> Coins_wf(amt) && bank_moved(old(W.bank), W.bank, "", moduleAddr(moduleName), amt) && forall(d, "Str", W.supply[d] == old(W.supply[d]) + Coins_amt(amt, d))
+//@   ensures err == nil ==> Coins_wf(amt) && bank_minted(old(W.bank), W.bank, moduleAddr(moduleName), amt) && forall(d, "Str", W.supply[d] == old(W.supply[d]) + Coins_amt(amt, d))
 //@ func (_.BankKeeper).GetAllBalances
 //@   uses bank
 //@   args recv ctx addr
@@ -51,9 +51,13 @@ package prelude
 //@   uses bank
 //@   ensures result == bech32(arg0)
 //@ func github.com/cosmos/cosmos-sdk/types.NewInt64Coin
+//@   uses coins
+//@   requires [denom_valid panics] valid_denom(arg0)
 //@   requires [amount_nonnegative panics] arg1 >= 0
 //@   ensures result.Denom == arg0 && result.Amount == arg1
 //@ func github.com/cosmos/cosmos-sdk/types.NewCoin
+//@   uses coins
+//@   requires [denom_valid panics] valid_denom(arg0)
 //@   requires [amount_nonnegative panics] arg1 >= 0
 //@   ensures result.Denom == arg0 && result.Amount == arg1
 //@ func github.com/cosmos/cosmos-sdk/types.ParseCoinNormalized
